@@ -10,7 +10,7 @@ set_option linter.unusedVariables false
 set_option linter.unusedSimpArgs false
 namespace GeomV.C11
 namespace Heap
-variable {O : Type}
+variable {O O' : Type}
 
 /-- a functional result as a result of the pointer-level model -/
 def liftF {α : Type} : Except Fault α → M α
@@ -281,6 +281,258 @@ theorem C11_heap_findLeaf_refines [DecidableEq O] [Bounded O] (m : Arena O) (o :
       exact ⟨p, _, rfl, by rw [← hl]; exact h⟩
     · simp only [hl, if_false, Bool.false_eq_true]
       exact findLeafLoop_refines m _ o _ _ (fun c cn hc => ih c cn hc) nd.entries es' hee
+
+/-! ### split -/
+
+/-- what `split` may change of a node besides `parent` -/
+def shapeAt (m : Arena O) (i : Ptr) : Option (Bool × Nat × List (HEntry O)) :=
+  (m[i]?).map fun n => (n.leaf, n.level, n.entries)
+
+theorem setParent_shape {m m' : Arena O} {c : Ptr} {p : Option Ptr} (h : setParent m c p = .ok m') :
+    ∀ i, shapeAt m' i = shapeAt m i := by
+  intro i
+  unfold setParent deref at h
+  cases hc : m[c]? with
+  | none => simp [hc, nilDeref, bind, Except.bind, throw, throwThe, MonadExceptOf.throw] at h
+  | some cn =>
+    simp [hc, bind, Except.bind, pure, Except.pure] at h
+    subst h
+    unfold shapeAt
+    by_cases hi : c = i
+    · subst hi
+      have hlt : c < m.length := by
+        cases hd : decide (c < m.length) with
+        | true => exact of_decide_eq_true hd
+        | false =>
+          have : m.length ≤ c := Nat.le_of_not_lt (of_decide_eq_false hd)
+          rw [List.getElem?_eq_none this] at hc; cases hc
+      rw [List.getElem?_set_self hlt, hc]; rfl
+    · rw [List.getElem?_set_ne hi]
+
+theorem setChildParent_shape {m m' : Arena O} {e : HEntry O} {p : Ptr} (h : setChildParent m e p = .ok m') :
+    ∀ i, shapeAt m' i = shapeAt m i := by
+  unfold setChildParent at h
+  cases hc : e.child with
+  | none => simp [hc, pure, Except.pure] at h; subst h; intro i; rfl
+  | some c => simp only [hc] at h; exact setParent_shape h
+
+theorem assign_shape {m m' : Arena O} {e : HEntry O} {g : Ptr} {a : Bool} {b : Nat} {es : List (HEntry O)}
+    (h : assign m e g = .ok m') (hg : shapeAt m g = some (a, b, es)) :
+    shapeAt m' g = some (a, b, es ++ [e]) ∧ ∀ i, i ≠ g → shapeAt m' i = shapeAt m i := by
+  unfold assign at h
+  cases h1 : setChildParent m e g with
+  | error x => simp [h1, bind, Except.bind] at h
+  | ok m1 =>
+    have hs := setChildParent_shape h1
+    simp only [h1, bind, Except.bind, deref] at h
+    have hg1 : shapeAt m1 g = some (a, b, es) := by rw [hs]; exact hg
+    cases hm : m1[g]? with
+    | none => simp [shapeAt, hm] at hg1
+    | some gd =>
+      simp [hm, pure, Except.pure] at h
+      subst h
+      have hlt : g < m1.length := by
+        cases hd : decide (g < m1.length) with
+        | true => exact of_decide_eq_true hd
+        | false =>
+          have : m1.length ≤ g := Nat.le_of_not_lt (of_decide_eq_false hd)
+          rw [List.getElem?_eq_none this] at hm; cases hm
+      simp only [shapeAt, hm, Option.map_some, Option.some.injEq, Prod.mk.injEq] at hg1
+      obtain ⟨ha, hb, he⟩ := hg1
+      constructor
+      · simp only [shapeAt]; rw [List.getElem?_set_self hlt]; simp [ha, hb, he]
+      · intro i hi
+        simp only [shapeAt]
+        rw [List.getElem?_set_ne (Ne.symm hi)]
+        exact hs i
+
+theorem map_eraseIdx' {α β : Type} (f : α → β) : ∀ (l : List α) (k : Nat), (l.eraseIdx k).map f = (l.map f).eraseIdx k
+  | [], _ => by simp
+  | a :: l, 0 => by simp
+  | a :: l, k+1 => by simp [map_eraseIdx' f l k]
+
+theorem bbs_map (φ : HEntry O → Entry O') (hφ : ∀ e, (φ e).bb = e.bb) (es : List (HEntry O)) :
+    (es.map φ).map Entry.bb = bbs es := by
+  simp [bbs, List.map_map, Function.comp_def, hφ]
+
+/-- the `for len(remaining) > 0` loop on the arena computes the functional `distribute` on the entry lists of
+`left` and `right` and touches the shape of no other node -/
+theorem distribute_refines (H : Heur) (minC : Nat) (φ : HEntry O → Entry O') (hφ : ∀ e, (φ e).bb = e.bb)
+    (left right : Ptr) (hne : left ≠ right) :
+    ∀ (fuel : Nat) (rem : List (HEntry O)) (m m' : Arena O) (a a' : Bool) (b b' : Nat) (l r : List (HEntry O)),
+      fuel = rem.length → shapeAt m left = some (a, b, l) → shapeAt m right = some (a', b', r) →
+      distribute H minC left right fuel rem m = .ok m' →
+      ∃ l' r', shapeAt m' left = some (a, b, l') ∧ shapeAt m' right = some (a', b', r') ∧
+        GeomV.C11.distribute H minC (l.map φ) (r.map φ) (rem.map φ) = .ok (l'.map φ, r'.map φ) ∧
+        ∀ i, i ≠ left → i ≠ right → shapeAt m' i = shapeAt m i := by
+  intro fuel
+  induction fuel with
+  | zero =>
+    intro rem m m' a a' b b' l r hf hl hr h
+    have : rem = [] := List.length_eq_zero_iff.mp hf.symm
+    subst this
+    simp [Heap.distribute, pure, Except.pure] at h; subst h
+    refine ⟨l, r, hl, hr, ?_, fun i _ _ => rfl⟩
+    rw [GeomV.C11.distribute]; simp [pure, Except.pure]
+  | succ f ih =>
+    intro rem m m' a a' b b' l r hf hl hr h
+    have hrne : rem ≠ [] := by intro h0; subst h0; simp at hf
+    rw [Heap.distribute] at h
+    have hemp : rem.isEmpty = false := by cases rem <;> simp_all
+    simp only [hemp, Bool.false_eq_true, if_false, deref, bind, Except.bind] at h
+    cases hml : m[left]? with
+    | none => simp [shapeAt, hml] at hl
+    | some ld =>
+      cases hmr : m[right]? with
+      | none => simp [shapeAt, hmr] at hr
+      | some rd =>
+        simp only [shapeAt, hml, hmr, Option.map_some, Option.some.injEq, Prod.mk.injEq] at hl hr
+        obtain ⟨hla, hlb, hle⟩ := hl
+        obtain ⟨hra, hrb, hre⟩ := hr
+        simp only [hml, hmr, pure, Except.pure, hle, hre] at h
+        have hrne' : rem.map φ ≠ [] := by simpa using hrne
+        generalize hk : H.pickNext (bbs l) (bbs r) (bbs rem) = k at h
+        cases hek : rem[k]? with
+        | none => simp [hek, throw, throwThe, MonadExceptOf.throw] at h
+        | some e =>
+          simp only [hek] at h
+          have hklt : k < rem.length := by
+            cases hd : decide (k < rem.length) with
+            | true => exact of_decide_eq_true hd
+            | false =>
+              have : rem.length ≤ k := Nat.le_of_not_lt (of_decide_eq_false hd)
+              rw [List.getElem?_eq_none this] at hek; cases hek
+          have hlen : f = (rem.eraseIdx k).length := by rw [List.length_eraseIdx]; simp [hklt]; omega
+          have hmapE : (rem.eraseIdx k).map φ = (rem.map φ).eraseIdx k := by
+            exact map_eraseIdx' φ rem k
+          have hsl : shapeAt m left = some (a, b, l) := by simp [shapeAt, hml, hla, hlb, hle]
+          have hsr : shapeAt m right = some (a', b', r) := by simp [shapeAt, hmr, hra, hrb, hre]
+          -- the two ways the entry can go
+          have goLeft : ∀ m1, assign m e left = .ok m1 →
+              distribute H minC left right f (rem.eraseIdx k) m1 = .ok m' →
+              ∃ l' r', shapeAt m' left = some (a, b, l') ∧ shapeAt m' right = some (a', b', r') ∧
+                GeomV.C11.distribute H minC (l.map φ ++ [φ e]) (r.map φ) ((rem.map φ).eraseIdx k) = .ok (l'.map φ, r'.map φ) ∧
+                ∀ i, i ≠ left → i ≠ right → shapeAt m' i = shapeAt m i := by
+            intro m1 ha1 hd1
+            obtain ⟨h1, h2⟩ := assign_shape ha1 hsl
+            obtain ⟨l', r', q1, q2, q3, q4⟩ := ih (rem.eraseIdx k) m1 m' a a' b b' (l ++ [e]) r hlen h1
+              (by rw [h2 right (Ne.symm hne)]; exact hsr) hd1
+            refine ⟨l', r', q1, q2, ?_, fun i hi1 hi2 => (q4 i hi1 hi2).trans (h2 i hi1)⟩
+            simpa [hmapE] using q3
+          have goRight : ∀ m1, assign m e right = .ok m1 →
+              distribute H minC left right f (rem.eraseIdx k) m1 = .ok m' →
+              ∃ l' r', shapeAt m' left = some (a, b, l') ∧ shapeAt m' right = some (a', b', r') ∧
+                GeomV.C11.distribute H minC (l.map φ) (r.map φ ++ [φ e]) ((rem.map φ).eraseIdx k) = .ok (l'.map φ, r'.map φ) ∧
+                ∀ i, i ≠ left → i ≠ right → shapeAt m' i = shapeAt m i := by
+            intro m1 ha1 hd1
+            obtain ⟨h1, h2⟩ := assign_shape ha1 hsr
+            obtain ⟨l', r', q1, q2, q3, q4⟩ := ih (rem.eraseIdx k) m1 m' a a' b b' l (r ++ [e]) hlen
+              (by rw [h2 left hne]; exact hsl) h1 hd1
+            refine ⟨l', r', q1, q2, ?_, fun i hi1 hi2 => (q4 i hi1 hi2).trans (h2 i hi2)⟩
+            simpa [hmapE] using q3
+          have hgetM : (rem.map φ)[H.pickNext ((l.map φ).map Entry.bb) ((r.map φ).map Entry.bb) ((rem.map φ).map Entry.bb)]? = some (φ e) := by
+            rw [bbs_map φ hφ, bbs_map φ hφ, bbs_map φ hφ, hk, List.getElem?_map, hek]; rfl
+          have hkM : H.pickNext ((l.map φ).map Entry.bb) ((r.map φ).map Entry.bb) ((rem.map φ).map Entry.bb) = k := by
+            rw [bbs_map φ hφ, bbs_map φ hφ, bbs_map φ hφ, hk]
+          rw [GeomV.C11.distribute]
+          simp only [hrne', dite_false]
+          split
+          · rename_i hn; rw [hgetM] at hn; cases hn
+          · rename_i e' hn
+            rw [hgetM] at hn; cases hn
+            simp only [List.length_map, bbs_map φ hφ, hφ, hk]
+            split_ifs at h ⊢
+            · cases ha1 : assign m e left with
+              | error x => simp [ha1] at h
+              | ok m1 => simp only [ha1] at h; exact goLeft m1 ha1 h
+            · cases ha1 : assign m e right with
+              | error x => simp [ha1] at h
+              | ok m1 => simp only [ha1] at h; exact goRight m1 ha1 h
+            · cases ha1 : assign m e left with
+              | error x => simp [ha1] at h
+              | ok m1 => simp only [ha1] at h; exact goLeft m1 ha1 h
+            · cases ha1 : assign m e right with
+              | error x => simp [ha1] at h
+              | ok m1 => simp only [ha1] at h; exact goRight m1 ha1 h
+
+/-- **C11_heap_split_refines** — `(*node).split` on the arena (node `n` reused as `left`, `right` allocated, every
+`.parent` write of the seeds and of `assign` performed) leaves in `left` and `right` exactly the two entry lists that the
+functional `splitEntries` computes from `n`'s entries (for every reading `φ` of arena entries as functional entries that
+keeps the boxes), keeps `leaf`/`level` of `n` on both, returns `left = n`, `right` = the fresh pointer, and changes
+`leaf`/`level`/`entries` of no other node (only `parent` fields of children are written). -/
+theorem C11_heap_split_refines (H : Heur) (minC : Nat) (φ : HEntry O → Entry O') (hφ : ∀ e, (φ e).bb = e.bb)
+    (m m' : Arena O) (n lp rp : Ptr) (nd : HNode O) (hm : m[n]? = some nd)
+    (h : split H minC m n = .ok (m', lp, rp)) :
+    lp = n ∧ rp = m.length ∧ ∃ le re, shapeAt m' n = some (nd.leaf, nd.level, le) ∧
+      shapeAt m' rp = some (nd.leaf, nd.level, re) ∧
+      splitEntries H minC (nd.entries.map φ) = .ok (le.map φ, re.map φ) ∧
+      ∀ i, i ≠ n → i < m.length → shapeAt m' i = shapeAt m i := by
+  have hnlt : n < m.length := by
+    cases hd : decide (n < m.length) with
+    | true => exact of_decide_eq_true hd
+    | false =>
+      have : m.length ≤ n := Nat.le_of_not_lt (of_decide_eq_false hd)
+      rw [List.getElem?_eq_none this] at hm; cases hm
+  obtain ⟨ce, psd, pn, al⟩ := H
+  unfold split at h
+  simp only [deref, hm, bind, Except.bind, pure, Except.pure] at h
+  unfold splitEntries
+  rw [bbs_map φ hφ]
+  simp only [] at h ⊢
+  generalize psd (bbs nd.entries) = ps at h ⊢
+  obtain ⟨li, ri⟩ := ps
+  simp only [List.getElem?_map] at h ⊢
+  cases hl : nd.entries[li]? with
+  | none => simp [hl, throw, throwThe, MonadExceptOf.throw] at h
+  | some ls =>
+    cases hr : nd.entries[ri]? with
+    | none => simp [hl, hr, throw, throwThe, MonadExceptOf.throw] at h
+    | some rs =>
+      simp only [hl, hr, Option.map_some] at h ⊢
+      by_cases hlt : li < ri
+      · simp only [hlt, if_true, alloc, List.length_set] at h ⊢
+        cases h3 : setChildParent ((m.set n { nd with entries := [ls] }) ++ [{ parent := nd.parent, leaf := nd.leaf, level := nd.level, entries := [rs] }]) rs m.length with
+        | error x => simp [h3] at h
+        | ok m3 =>
+          simp only [h3] at h
+          cases h4 : setChildParent m3 ls n with
+          | error x => simp [h4] at h
+          | ok m4 =>
+            simp only [h4] at h
+            cases h5 : distribute (Heur.mk ce psd pn al) minC n m.length ((nd.entries.eraseIdx ri).eraseIdx li).length ((nd.entries.eraseIdx ri).eraseIdx li) m4 with
+            | error x => simp [h5] at h
+            | ok m5 =>
+              simp only [h5, Except.ok.injEq, Prod.mk.injEq] at h
+              obtain ⟨h51, h52, h53⟩ := h
+              subst h51; subst h52; subst h53
+              have s3 := setChildParent_shape h3
+              have s4 := setChildParent_shape h4
+              have hn4 : shapeAt m4 n = some (nd.leaf, nd.level, [ls]) := by
+                rw [s4, s3]; unfold shapeAt
+                rw [List.getElem?_append_left (by simpa using hnlt), List.getElem?_set_self hnlt]; rfl
+              have hr4 : shapeAt m4 m.length = some (nd.leaf, nd.level, [rs]) := by
+                rw [s4, s3]; unfold shapeAt
+                rw [List.getElem?_append_right (by simp)]; simp
+              have hne : n ≠ m.length := Nat.ne_of_lt hnlt
+              obtain ⟨le, re, q1, q2, q3, q4⟩ := distribute_refines (Heur.mk ce psd pn al) minC φ hφ n m.length hne _ _ m4 m5 _ _ _ _ [ls] [rs] rfl hn4 hr4 h5
+              refine ⟨rfl, rfl, le, re, q1, q2, ?_, ?_⟩
+              · rw [← map_eraseIdx' φ, ← map_eraseIdx' φ]; simpa using q3
+              · intro i hi hilt
+                rw [q4 i hi (Nat.ne_of_lt hilt), s4, s3]; unfold shapeAt
+                rw [List.getElem?_append_left (by simpa using hilt), List.getElem?_set_ne (Ne.symm hi)]
+      · simp [hlt, throw, throwThe, MonadExceptOf.throw] at h
+
+/-- non-vacuity: `split` succeeds on a concrete arena (three object entries, trivial in-range heuristics) and the
+representation hypothesis of the search/findLeaf theorems holds of a concrete two-level memory -/
+example : ∃ m' l r, split (O := Nat) ⟨fun _ _ => 0, fun _ => (0, 1), fun _ _ _ => 0, fun _ _ _ => true⟩ 1
+    [{ parent := none, leaf := true, level := 1, entries :=
+        [⟨⟨0, 0, 0, 0⟩, none, some 0⟩, ⟨⟨5, 5, 5, 5⟩, none, some 1⟩, ⟨⟨1, 1, 1, 1⟩, none, some 2⟩] }] 0 = .ok (m', l, r) :=
+  ⟨_, _, _, rfl⟩
+
+example : ∃ n, erase (O := Nat)
+    [{ parent := none, leaf := false, level := 2, entries := [⟨⟨0, 0, 1, 1⟩, some 1, none⟩] },
+     { parent := some 0, leaf := true, level := 1, entries := [⟨⟨0, 0, 1, 1⟩, none, some 7⟩] }] 2 0 = some n :=
+  ⟨_, rfl⟩
 
 end Heap
 end GeomV.C11
